@@ -45,6 +45,23 @@ def escape_word_sweep(viol):
     return n
 
 
+def punctuation_sweep(viol):
+    """_is_unicode_punctuation against the GFM definition it quotes (Unicode P* categories plus the four ASCII symbol
+    ranges) on every code point below U+3000: the delimiter flanking rules of the custom strikethrough rest on it"""
+    import unicodedata
+    from flowmark.formats import flowmark_markdown as FM
+    n = 0
+    for cp in range(0x3000):
+        c = chr(cp)
+        want = unicodedata.category(c).startswith("P") or 0x21 <= cp <= 0x2f or 0x3a <= cp <= 0x40 or 0x5b <= cp <= 0x60 or 0x7b <= cp <= 0x7e
+        n += 1
+        if bool(FM._is_unicode_punctuation(c)) != want:
+            viol.append({"clause": "unicode_punctuation_as_specified", "input": {"char": c, "codepoint": cp}, "got": not want, "want": want})
+            if len(viol) > 10:
+                break
+    return n
+
+
 def bounded(tier, seed):
     n = 120 if tier == "quick" else 1200
     fill = [dict(width=w, semantic=False) for w in (88, 20, 8, 4, 1, 0)]
@@ -52,10 +69,10 @@ def bounded(tier, seed):
     r1 = P.sweep(seed, n, [P.same_structure], option_sets=fill, budget_s=25 if tier == "quick" else 600)
     r2 = P.sweep(seed + 7919, n, [P.same_structure], option_sets=sem, hazards=False, budget_s=20 if tier == "quick" else 600)
     ev = []
-    ne = escape_word_sweep(ev)
+    ne = escape_word_sweep(ev) + punctuation_sweep(ev)
     return {"evaluations": r1["evaluations"] + r2["evaluations"] + ne, "distinct_nontrivial": r1["distinct_nontrivial"] + r2["distinct_nontrivial"],
             "violations": r1["violations"] + r2["violations"] + ev, "samples": r1["samples"],
-            "rule": "(also: markdown_escape_word on every word of <= 4 symbols over an 11-symbol alphabet against the CommonMark block-start "
+            "rule": "(also: _is_unicode_punctuation == the GFM definition on every code point below U+3000) (also: markdown_escape_word on every word of <= 4 symbols over an 11-symbol alphabet against the CommonMark block-start "
                     "rule) seeded documents from props/docspace.py x widths {88,20,8,4,1,0} fill mode (hazard words included) and "
                     "{88,20,8,0} semantic mode (no hazard words), cleanups/typography off, list_spacing=preserve: canonical tree of "
                     "input == canonical tree of output; distinct = distinct outputs",
